@@ -34,7 +34,7 @@ def showAttrs (l : List AttrObs) : String :=
 def showAction : Action → String
   | .install l => "install " ++ showAttrs l
   | .discardAttrs l => "discard " ++ showAttrs l
-  | .withdrawAll => "withdraw"
+  | .withdrawAll _ => "withdraw"
   | .reset c s => s!"reset {c} {s}"
 
 def parseCfg (ts : List String) : Option (Cfg × List String) :=
@@ -77,11 +77,14 @@ def step (s : Unit) (ts : List String) : Unit × List String :=
         -- AS4_PATH / AS4_AGGREGATOR are folded away by the 4-octet-AS conversion before delivery
         let vis (l : List AttrObs) := (l.filter (fun a => a.typ != 17 && a.typ != 18)).map
           (fun a => if a.typ == 2 then { a with flags := a.flags &&& 0xef } else a)
+        let eff := match effect c m with
+          | some e => s!" ann={e.announced} wdn={e.withdrawn}"
+          | none => ""
         match sessionAction c m with
         | .reset code sub => (s, [s!"reset {code} {sub}"])
-        | .install l => (s, [s!"install {showAttrs (vis l)} wd={d.wd} nlri={d.nlri}"])
-        | .discardAttrs l => (s, [s!"discard {showAttrs (vis l)} wd={d.wd} nlri={d.nlri}"])
-        | .withdrawAll => (s, [s!"withdraw wd={d.wd} nlri={d.nlri}"])
+        | .install l => (s, [s!"install {showAttrs (vis l)} wd={d.wd} nlri={d.nlri}" ++ eff])
+        | .discardAttrs l => (s, [s!"discard {showAttrs (vis l)} wd={d.wd} nlri={d.nlri}" ++ eff])
+        | .withdrawAll _ => (s, [s!"withdraw wd={d.wd} nlri={d.nlri}" ++ eff])
     | _ => (s, ["bad-op"])
   | [] => (s, [])
   | _ => (s, ["bad-op"])
